@@ -87,3 +87,9 @@ VARIANTS += [
          old="        with self._thread_lock:\n            self._write_log(JournalOperation.SET_TRIAL_USER_ATTR, log)\n            self._sync_with_backend()\n",
          new="        with self._thread_lock:\n            self._write_log(JournalOperation.SET_TRIAL_USER_ATTR, log)\n        with self._thread_lock:\n            self._sync_with_backend()\n"),
 ]
+
+VARIANTS += [
+    dict(id="c03-journal-precheck-before-append", prop="C03", file=JS, expect="R03.8",
+         old="        with self._thread_lock:\n            self._write_log(JournalOperation.DELETE_STUDY, {\"study_id\": study_id})\n            self._sync_with_backend()\n",
+         new="        with self._thread_lock:\n            self._sync_with_backend()\n            self._replay_result.get_study(study_id)\n            self._write_log(JournalOperation.DELETE_STUDY, {\"study_id\": study_id})\n            self._sync_with_backend()\n"),
+]
